@@ -15,6 +15,10 @@ real_t f_remquo(real_t x, real_t y, uint32_t* quo) {
   __CPROVER_assume(r >= -ay / 2 && r <= ay / 2);
   __CPROVER_assume(n > -1000000000 && n < 1000000000);
   __CPROVER_assume((real_t)n * y + r == x);          /* exact remainder */
+  /* the remainder of two integer-valued doubles is integer-valued (then the line above is exact:
+   * all quantities are integers below 2^53); without this a denormal r would satisfy it by rounding */
+  if (x > -1e15 && x < 1e15 && y > -1e15 && y < 1e15 && x == (real_t)(int64_t)x && y == (real_t)(int64_t)y)
+    __CPROVER_assume(r == (real_t)(int64_t)r);
   if (r == ay / 2 || r == -ay / 2) __CPROVER_assume((n & 1) == 0); /* ties to even */
   uint32_t mag = (uint32_t)(n < 0 ? -n : n) & 7u;
   *quo = (n < 0) ? (uint32_t)(-(int32_t)mag) : mag;
